@@ -6,7 +6,8 @@
  * cases.txt, one case per line, integers:
  *   id n ns det A[n*n]   and, if ns = 1 (non-singular):
  *   inv[(num den) n*n]  b[n]  x[(num den) n]  X[(n+1)*n]  y[n+1]  beta[(num den) n]  pinv[(num den) n*(n+1)]
- * Each case is run on A * 2^-e for e = 0 and e = 14, every third case also for e = 34 and e = -30 (same conditioning; exact in double); the expectations scale.
+ * Each case is run on A * 2^-e for e = 0 and e = 14, every third case also for e = 34 and e = -30 (same conditioning; exact in double) and every
+ * third case at one of the non-dyadic units 0.1, 1/3, 1e-6, 1e6 (exp codes 1000..1003); the expectations scale.
  * Tolerance: 1e-9 * cond (cond = |A|_F |A^-1|_F from the exact inverse) relative to the largest expected entry.
  * Output: Fail{id,routine,exp,i,j,got,want} lines and a final Done line; if the process is killed by a sanitizer or a
  * signal, a Crash{id,routine,exp} line is written first (death callback / signal handler).
@@ -56,6 +57,9 @@ static void cmp_vec(const kase *k, dvector *got, int n, double want[MAXN + 1], d
 
 static void run_case(const kase *k, int e){
   int n = k->n; double u = ldexp(1.0, -e), iu = ldexp(1.0, e);
+  /* codes >= 1000: units that are not powers of two (K5 / K4): the entries k * u are rounded, a relative perturbation of one ulp whose effect
+     (eps * cond) is far inside the tolerance 1e-9 * cond */
+  if(e >= 1000){ static const double U[] = {0.1, 1.0 / 3.0, 1e-6, 1e6}; u = U[(e - 1000) % 4]; iu = 1.0 / u; }
   cur_id = k->id; cur_exp = e; nruns++;
   matrix *A; NewMatrix(&A, n, n);
   for(int i = 0; i < n; i++) for(int j = 0; j < n; j++) A->data[i][j] = (double)k->A[i][j] * u;
@@ -143,6 +147,7 @@ int main(int argc, char **argv){
     /* the routines are claimed for every well-conditioned matrix whatever its units: far smaller and far larger units
        (2^-34 ~ 6e-11, 2^30 ~ 1e9; still exact in double) on every third case */
     if(k.id % 3 == 0){ run_case(&k, 34); run_case(&k, -30); }
+    if(k.id % 3 == 1) run_case(&k, 1000 + (int)((k.id / 3) % 4));
   }
   VRT_EMIT("{\"e\":\"Done\",\"cases\":%ld,\"runs\":%ld,\"fails\":%ld}", ncases, nruns, nfail);
   vrt_close(); fclose(f);
